@@ -10,7 +10,6 @@ import copy
 import hashlib
 import json
 import os
-import random
 import re
 import shutil
 
@@ -59,10 +58,20 @@ def valuations(p: dict) -> list:
     return out
 
 
+_ENVS: dict = {}
+
+
+def _env(partials: dict):
+    key = json.dumps(partials, sort_keys=True)
+    if key not in _ENVS:
+        _ENVS[key] = harness.make_env(extra=False, flags=FLAGS, templates=partials)
+    return _ENVS[key]
+
+
 def observe(p: dict) -> dict:
     """Everything a caller can see of the round trip of one program. No judgement here."""
     src = source_of(p)
-    env = harness.make_env(extra=False, flags=FLAGS, templates=p["partials"])
+    env = _env(p["partials"])
     t, err = harness.parse(env, src)
     if err:
         return {"src": src, "srcerr": err}
@@ -135,10 +144,12 @@ def gen_runs(tier: str) -> list:
     """The family is enumerated by several TLC runs side by side (one template, different constants)."""
     q = tier == "quick"
     allroots = ["atom", "not", "and", "or", "==", "!=", "<", "contains"]
-    base = dict(LogicDepth=3, CarrierDepth=2 if q else 3, Rotations="{0}", CmpDepth=2 if q else 3, Wide="FALSE" if q else "TRUE",
+    base = dict(LogicDepth=3, CarrierDepth=2, Rotations="{0}", CmpDepth=2 if q else 3, Wide="FALSE" if q else "TRUE",
                 Roots=_tla_set(allroots))
-    groups = [("compare", dict(Families=_tla_set(["compare"] + (EXPRS if q else [])))),
-              ("tags", dict(Families=_tla_set(TAGS + (["nest"] if q else []))))]
+    if q:
+        groups = [("compare", dict(Families=_tla_set(["compare"] + EXPRS + TAGS + ["nest"])))]
+    else:
+        groups = [("compare", dict(Families=_tla_set(["compare"]))), ("tags", dict(Families=_tla_set(TAGS)))]
     for rot in ([0] if q else [0, 1, 2]):       # the big family is cut by root operator so the runs share the work
         for n, roots in enumerate((["atom", "not", "and"], ["or"]) if q else (["atom", "not"], ["and"], ["or"])):
             groups.append((f"logic{rot}{n}", dict(Families=_tla_set(["logic"]), Rotations="{%d}" % rot, Roots=_tla_set(roots))))
@@ -149,7 +160,7 @@ def gen_runs(tier: str) -> list:
     runs = []
     for tag, over in groups:
         runs.append(("RoundTrip", gen_cfg("cfg/RoundTrip.tmpl", dict(base, **over), tag),
-                     dict(workers=2, timeout=3000, java_opts=["-XX:ParallelGCThreads=2"])))
+                     dict(workers=4 if q and tag == "compare" else 2, timeout=3000, java_opts=["-XX:ParallelGCThreads=2"])))
     if not q:
         runs.append(("RoundTrip", "cfg/RoundTrip_min.cfg", dict(workers=2, timeout=3000)))
         for depth, num in ((4, 2500), (5, 1500)):
@@ -181,20 +192,26 @@ def generate(ck: Check, tier: str) -> list:
             continue        # a second parser-respecting printer satisfies the clauses; nothing to replay
         if not r.emitted:
             raise MachineryError(f"{name} emitted no program")
+        if "_grow" in cfg and not any(p["fam"] == "grown" for p in r.emitted):
+            raise MachineryError(f"{name} grew no tree")
         for p in r.emitted:
             key = source_of(p)
             if key not in seen:
                 seen.add(key)
                 progs.append(p)
+    progs.sort(key=lambda p: (p["fam"], source_of(p)))      # TLC workers emit in any order
+    # vacuity guard: a program is emitted only in phase "done", i.e. after DoParse;DoPrint;DoReparse;DoReprint (trees) or Opaque (tags)
+    kinds = {"tree" if p["expect"] or p["fam"] in ("logic", "compare", "grown") else "tag" for p in progs}
+    if kinds != {"tree", "tag"}:
+        raise MachineryError("the specification emitted only " + ", ".join(sorted(kinds)) + " programs")
     return progs
 
 
 def run(tier: str) -> int:
     fresh_repo_imports()
     ck = Check(PID, tier)
-    rnd = random.Random(seed())
-    ck.cov["rule"] = ("RoundTrip.tla: and/or/not trees of depth<=3 over atoms a,b,c (quick: one labelling in `if`, depth<=2 in 6 carriers; thorough: 3 labellings, "
-                      "depth<=3 in every carrier, random depth 4-5 trees by simulation), trees nesting == != < contains, and for every standard tag the product "
+    ck.cov["rule"] = ("RoundTrip.tla: and/or/not trees of depth<=3 over atoms a,b,c (depth<=2 in 6 carriers, depth 3 in `if`; quick: one leaf labelling; thorough: 3 labellings, "
+                      "==-nesting trees of depth 3, random depth 4-5 trees by simulation), trees nesting == != < contains, and for every standard tag the product "
                       "of its argument shapes (if/unless chains, case block orders, for/tablerow targets x limit x offset x reversed x else x cols, filtered and "
                       "ternary expressions in output/echo/assign, cycle groups, counters, ifchanged, include/render binds x keyword arguments, liquid, comments, "
                       "raw, whitespace control, nesting), every string literal / path / number / range / keyword literal in every expression position; "
@@ -243,7 +260,9 @@ def run(tier: str) -> int:
         if clause == "SpecParserDisagreesWithEngine":
             calib.append(detail)        # the round trip itself held; the engine's PARSER differs from ExprRT's (C12's subject)
             continue
-        ck.fail(f"RoundTrip.tla!{clause}: {CLAUSE[clause]}", detail, sig=f"{p['cls']}:{clause}")
+        # the finding signature names the construct, not only the family: a raw block in the source is its own class
+        cls = p["cls"] + ("+raw-block" if "raw %}" in o["src"] else "")
+        ck.fail(f"RoundTrip.tla!{clause}: {CLAUSE[clause]}", detail, sig=f"{cls}:{clause}")
     ck.cov["families"] = {k: {"programs": v[0], "nontrivial": v[1], "valuations": v[2]} for k, v in sorted(fams.items())}
     empty = [k for k, v in fams.items() if v[1] == 0]
     if empty:
